@@ -394,11 +394,8 @@ Record qstate := {
   q_nodes : list (qname * list (mfield Z))           (* node i = i-th element: built from which declaration, fields *)
 }.
 
-Fixpoint cache_get (c : list (bytes * (Z * Z))) (k : bytes) : option (Z * Z) :=
-  match c with
-  | [] => None
-  | (k', v) :: r => if bytes_eqb k' k then Some v else cache_get r k
-  end.
+(* the memo is a Go map: lookup = search of the key list maintained by [fnm_set] (replace or append) *)
+Definition cache_get (c : list (bytes * (Z * Z))) (k : bytes) : option (Z * Z) := fnm_get c k.
 
 Fixpoint set_node (n : nat) (v : qname * list (mfield Z)) (l : list (qname * list (mfield Z))) :=
   match n, l with
@@ -411,6 +408,25 @@ Definition conv_field (f : mfield qname) (t e : option Z) : mfield Z :=
   {| mf_num := mf_num f; mf_name := mf_name f; mf_json := mf_json f; mf_kind := mf_kind f; mf_ty := mf_ty f;
      mf_list := mf_list f; mf_map := mf_map f; mf_packed := mf_packed f; mf_keyty := mf_keyty f; mf_elemty := mf_elemty f;
      mf_tmsg := t; mf_emsg := e |}.
+
+(* one field of parseMessage's loop; [rec] = parseMessage on a message type (same cache, same target) *)
+Definition qfield_step (rec : qname -> qstate -> Z * qstate) (acc : list (mfield Z) * qstate) (f : mfield qname)
+  : list (mfield Z) * qstate :=
+  let '(out, s) := acc in
+  if mf_map f then
+    let '(e, s1) := match mf_emsg f with
+                    | Some v => let '(i, s') := rec v s in (Some i, s')
+                    | None => (None, s) end in
+    let '(t, s2) := match mf_tmsg f with
+                    | Some v => let '(i, s') := rec v s1 in (Some i, s')
+                    | None => (None, s1) end in
+    (conv_field f t e :: out, s2)
+  else
+    match mf_tmsg f with
+    | Some v => let '(i, s') := rec v s in
+                (conv_field f (Some i) (if mf_list f then Some i else None) :: out, s')
+    | None => (conv_field f None None :: out, s)
+    end.
 
 Section QParse.
   Variable keyf : qname -> bytes.
@@ -433,23 +449,7 @@ Section QParse.
         let nd := Z.of_nat (length (q_nodes st)) in
         let st1 := {| q_cache := fnm_set (q_cache st) (keyf m) (target, nd); q_nodes := q_nodes st ++ [(m, [])] |} in
         let decls := match lookup_msg tbl m with Some fs => fs | None => [] end in
-        let '(rfs, st2) :=
-          fold_left (fun (acc : list (mfield Z) * qstate) (f : mfield qname) =>
-            let '(out, s) := acc in
-            if mf_map f then
-              let '(e, s1) := match mf_emsg f with
-                              | Some v => let '(i, s') := qparse fuel' target v s in (Some i, s')
-                              | None => (None, s) end in
-              let '(t, s2) := match mf_tmsg f with
-                              | Some v => let '(i, s') := qparse fuel' target v s1 in (Some i, s')
-                              | None => (None, s1) end in
-              (conv_field f t e :: out, s2)
-            else
-              match mf_tmsg f with
-              | Some v => let '(i, s') := qparse fuel' target v s in
-                          (conv_field f (Some i) (if mf_list f then Some i else None) :: out, s')
-              | None => (conv_field f None None :: out, s)
-              end) decls ([], st1) in
+        let '(rfs, st2) := fold_left (qfield_step (qparse fuel' target)) decls ([], st1) in
         (nd, {| q_cache := q_cache st2; q_nodes := set_node (Z.to_nat nd) (m, rev rfs) (q_nodes st2) |})
       end
     end.
@@ -458,12 +458,14 @@ Section QParse.
   Definition qparse_opt (fuel : nat) (target : Z) (m : option qname) (st : qstate) : Z * qstate :=
     match m with Some q => qparse fuel target q st | None => (-1, st) end.
 
+  Definition qmethod_step (fuel : nat) (acc : list (pmethod * Z * Z) * qstate) (pm : pmethod) : list (pmethod * Z * Z) * qstate :=
+    let '(out, s) := acc in
+    let '(i, s1) := qparse_opt fuel 0 (pm_in pm) s in
+    let '(o, s2) := qparse_opt fuel 1 (pm_out pm) s1 in
+    (out ++ [(pm, i, o)], s2).
+
   Definition qmethods (fuel : nat) (ms : list pmethod) : list (pmethod * Z * Z) * qstate :=
-    fold_left (fun (acc : list (pmethod * Z * Z) * qstate) (pm : pmethod) =>
-      let '(out, s) := acc in
-      let '(i, s1) := qparse_opt fuel 0 (pm_in pm) s in
-      let '(o, s2) := qparse_opt fuel 1 (pm_out pm) s1 in
-      (out ++ [(pm, i, o)], s2)) ms ([], {| q_cache := []; q_nodes := [] |}).
+    fold_left (qmethod_step fuel) ms ([], {| q_cache := []; q_nodes := [] |}).
 End QParse.
 
 (* which declaration the node reached from node [i] along the message-typed fields [path] was built from *)
